@@ -19,7 +19,7 @@ RULE = ("bursts of 1..5 uniquely tagged messages routed back-to-back and across 
         "chooses which parked awaitable completes next, or that one connection never completes; each leaf is a fresh re-execution. Each "
         "connection's output is split by an independent XML splitter and must be exactly the routed messages in routed order; with a "
         "stalled connection the router call and every other connection must still finish within a bounded number of loop rounds. "
-        "Some scenarios carry a 200 KB message (longer than any write buffer) followed by further messages routed after each completion. "
+        "Some scenarios carry a 200 KB message (longer than any write buffer) followed by further messages routed after each completion, also as a 150 KB setBLOBVector to connections that enabled BLOBs. "
         "In addition every script over {route one message, one loop iteration, complete a parked awaitable} up to a bounded length "
         "is executed on a single TCP / client connection, so that routing happens in every one-iteration window around a completion. "
         "non-trivial = a schedule with at least one choice point that had more than one option, a stalled connection, or a scripted interleaving; "
@@ -87,9 +87,43 @@ class CountingExecutor(ThreadPoolExecutor):
 BIG = 200_000
 
 
-def make_message(k, big=False):
+class ManualExecutor(ThreadPoolExecutor):
+    """The loop's DEFAULT executor during a run: jobs handed to run_in_executor(None, ...) are parked and complete when the
+    explorer says so (they run in the loop thread then).  The library does not use it today; code that starts to - to serialise
+    or encode a large message off the loop - turns the completion of that job into one more choice point of the schedule."""
+
+    def __init__(self):
+        super().__init__(max_workers=1)
+        self.parked = []          # (id, future, fn, args, kwargs)
+        self.n = 0
+
+    def submit(self, fn, *a, **kw):
+        import concurrent.futures
+        fut = concurrent.futures.Future()
+        self.n += 1
+        self.parked.append((self.n, fut, fn, a, kw))
+        return fut
+
+    def complete(self, ident):
+        item = next(x for x in self.parked if x[0] == ident)
+        self.parked.remove(item)
+        _, fut, fn, a, kw = item
+        if fut.set_running_or_notify_cancel():
+            try:
+                fut.set_result(fn(*a, **kw))
+            except BaseException as e:
+                fut.set_exception(e)
+
+
+def make_message(k, big=False, blob=False):
     import indi.message as M
     from indi.message import one_parts
+    if big and blob:
+        # a camera frame: the kind and size of message a server is most tempted to treat specially
+        import base64
+        raw = (b"M%d-" % k) + bytes(range(256)) * 600
+        return M.SetBLOBVector(device="D", name="IMG", state="Ok",
+                               children=(one_parts.OneBLOB(name="b", size=len(raw), format=".bin", value=base64.b64encode(raw).decode("ascii")),))
     if big:
         # longer than any buffer or slice size a transport may use (asyncio's write-buffer limit is 64 KiB)
         return M.SetTextVector(device="D", name="P", state="Ok", children=(one_parts.OneText(name="a", value=f"M{k}" + "ab>cd" * (BIG // 5)),))
@@ -101,11 +135,11 @@ def make_message(k, big=False):
 class Scenario:
     """conns: list of 'tcp' | 'tty' | 'client'; groups: list of burst sizes; stalled: index or None."""
 
-    def __init__(self, conns, groups, stalled=None, script=None, big=()):
-        self.conns, self.groups, self.stalled, self.script, self.big = conns, groups, stalled, script, tuple(big)
+    def __init__(self, conns, groups, stalled=None, script=None, big=(), blob=False):
+        self.conns, self.groups, self.stalled, self.script, self.big, self.blob = conns, groups, stalled, script, tuple(big), blob
 
     def key(self):
-        return (tuple(self.conns), tuple(self.groups), self.stalled, self.script) + ((self.big,) if self.big else ())
+        return (tuple(self.conns), tuple(self.groups), self.stalled, self.script) + ((self.big,) if self.big else ()) + (("blob",) if self.blob else ())
 
 
 async def execute(ctx, sc, prefix):
@@ -116,6 +150,8 @@ async def execute(ctx, sc, prefix):
     router = Router()
     conns = []
     executor = None
+    manual = ManualExecutor()
+    loop.set_default_executor(manual)
     for i, kind in enumerate(sc.conns):
         if kind == "tcp":
             from indi.transport.server.tcp import ConnectionHandler
@@ -136,6 +172,12 @@ async def execute(ctx, sc, prefix):
             w = FakeWriter(f"cli{i}", auto_drain=False)
             h = ConnectionHandler(asyncio.StreamReader(), w, lambda m: None)
             conns.append({"kind": kind, "handler": h, "writer": w})
+    if sc.blob:
+        # the server-side connections asked for BLOBs
+        import indi.message as M
+        for c in conns:
+            if c["kind"] != "client":
+                router.process_message(M.EnableBLOB(device="D", value="Also"), sender=c["handler"])
     sent = []
     groups = list(sc.groups)
     counts = []
@@ -145,7 +187,7 @@ async def execute(ctx, sc, prefix):
         if not groups:
             return False
         for _ in range(groups.pop(0)):
-            msg = make_message(nmsg[0], nmsg[0] in sc.big)
+            msg = make_message(nmsg[0], nmsg[0] in sc.big, sc.blob)
             nmsg[0] += 1
             sent.append(msg)
             t0 = time.monotonic()
@@ -180,7 +222,7 @@ async def execute(ctx, sc, prefix):
                 quiet += 1
 
     def options():
-        opts = []
+        opts = [(-1, "exec", item[0]) for item in manual.parked]
         for i, c in enumerate(conns):
             if sc.stalled == i:
                 continue
@@ -195,6 +237,10 @@ async def execute(ctx, sc, prefix):
 
     def release(opt):
         i, what, ident = opt
+        if what == "exec":
+            manual.complete(ident)
+            ctx.count("default_executor_jobs_completed_by_the_explorer")
+            return
         c = conns[i]
         if what == "drain":
             c["writer"].release(ident)
@@ -339,7 +385,7 @@ def explore(ctx, sc, max_schedules=None):
         if bad:
             key, what, out = bad
             ctx.violate(key, f"{what} (scenario {sc.key()}, schedule {full})",
-                        {"conns": sc.conns, "groups": sc.groups, "stalled": sc.stalled, "script": sc.script, "big": list(sc.big), "schedule": full}, {"output_tail": out})
+                        {"conns": sc.conns, "groups": sc.groups, "stalled": sc.stalled, "script": sc.script, "big": list(sc.big), "blob": sc.blob, "schedule": full}, {"output_tail": out})
             return n
         # children: alternatives at positions >= len(prefix)
         for pos in range(len(counts) - 1, len(prefix) - 1, -1):
@@ -367,6 +413,9 @@ def scenarios(ctx):
     # a message much longer than the transport's write buffer, with further messages routed after each completion
     for kind in ("tcp", "client", "tty"):
         out += [Scenario([kind], [1, 1, 1], big=(0,)), Scenario([kind], [1, 1, 1], big=(1,)), Scenario([kind], [2, 1], big=(1,))]
+    for kind in ("tcp", "client", "tty"):
+        out += [Scenario([kind], [1, 1, 1], big=(0,), blob=True), Scenario([kind], [2, 1], big=(0,), blob=True), Scenario([kind], [1, 2], big=(1,), blob=True)]
+    out += [Scenario(["tcp", "tcp"], [2, 1], big=(0,), blob=True)]
     out += [Scenario(["tcp", "tcp"], [1, 1], big=(0,)), Scenario(["tcp", "tty"], [1, 1], big=(0,)), Scenario(["tcp", "tcp"], [1, 1], big=(0,), stalled=0)]
     for sc_ in ("rdrdr", "rdrydr", "rdyrdr", "ryrdrd", "rdrdyrd", "rdrdrd", "rydrdr"):
         out += [Scenario(["tcp"], [], script=sc_, big=(0,)), Scenario(["client"], [], script=sc_, big=(0,)), Scenario(["tcp"], [], script=sc_, big=(1,))]
@@ -415,7 +464,7 @@ def exhaustive(ctx):
 
 
 def replay(ctx, case):
-    sc = Scenario(case["conns"], case["groups"], case.get("stalled"), case.get("script"), case.get("big") or ())
+    sc = Scenario(case["conns"], case["groups"], case.get("stalled"), case.get("script"), case.get("big") or (), bool(case.get("blob")))
     counts, bad = asyncio.run(execute(ctx, sc, case["schedule"]))
     ctx.case_fast(("replay",))
     ctx.case_fast(("replay2",))
